@@ -43,7 +43,18 @@ impl Prop for ConfigDiff {
                     Case { format: f, input, a, b, mode }
                 })
         };
-        boxed(prop_oneof![per_format(Format::Fasta), per_format(Format::Fastq)])
+        let big = |f: Format| {
+            (gen::big_input(f), (gen::big_cap(), gen::policy_permissive()), (gen::big_cap(), gen::policy_permissive()), prop_oneof![Just(Mode::Next), Just(Mode::Sets)]).prop_map(
+                move |(input, a, b, mode)| Case {
+                    format: f,
+                    input,
+                    a: Cfg { cap: a.0, policy: a.1, script: Default::default() },
+                    b: Cfg { cap: b.0, policy: b.1, script: crate::source::Script { chunks: vec![4093], ..Default::default() } },
+                    mode,
+                },
+            )
+        };
+        boxed(prop_oneof![20 => per_format(Format::Fasta), 20 => per_format(Format::Fastq), 1 => big(Format::Fasta), 1 => big(Format::Fastq)])
     }
 
     fn check(&self, c: &Case, ctx: &mut Ctx) -> CheckResult {
@@ -63,6 +74,9 @@ impl Prop for ConfigDiff {
         });
         if ga != gb {
             ctx.class("the two runs grew the buffer a different number of times");
+        }
+        if c.input.len() > 10_000 {
+            ctx.class("input larger than 10 kB");
         }
         if ca != cb {
             ctx.class("the two runs made a different number of source reads");
@@ -92,6 +106,62 @@ impl Prop for ConfigDiff {
                 ra.outs,
                 rb.outs
             );
+        }
+        // "every growth policy that permits the needed size": re-run configuration A with the tightest limited
+        // policy that still permits the needed size. Nothing may change - in particular the policy must never be asked beyond it.
+        // The needed size is derived from the record extents (generator aid, as for the capacities): the first size
+        // in the policy's own growth chain at which every record fits (one byte of look-ahead slack, see C09).
+        let needed: Option<usize> = {
+            let m = Model::build(c.format, &c.input);
+            if m.term == crate::model::Terminal::Unspecified {
+                None
+            } else {
+                let mut s = c.a.cap;
+                let mut ok = true;
+                'outer: for j in 0..=m.recs.len() {
+                    let mut guard = 0;
+                    while super::c09::needs(&m, &c.input, j, s) == Some(true) {
+                        match c.a.policy.answer(s) {
+                            Some(n) if n > s && guard < 64 => s = n,
+                            _ => {
+                                ok = false;
+                                break 'outer;
+                            }
+                        }
+                        guard += 1;
+                    }
+                }
+                if ok {
+                    Some(s)
+                } else {
+                    None
+                }
+            }
+        };
+        let tight = match (c.a.policy, needed) {
+            (crate::policy::PolKind::Std, Some(n)) if n < (1 << 22) => Some((crate::policy::PolKind::RefuseAbove(n as u32), n)),
+            (crate::policy::PolKind::DoubleUntil(t), Some(n)) => Some((crate::policy::PolKind::DoubleUntilLimited(t, n as u32), n)),
+            _ => None,
+        };
+        if let Some((tp, max_adopted)) = tight {
+            let rt = read_all(c.format, &c.input, c.a.cap, tp, &c.a.script, c.mode, max);
+            crate::interp_livelock(&rt.src, c.format)?;
+            ctx.class("tight-limit rerun (policy permits exactly the needed size)");
+            if rt.outs != ra.outs {
+                let i = (0..ra.outs.len().max(rt.outs.len())).find(|&i| ra.outs.get(i) != rt.outs.get(i)).unwrap();
+                fail!(
+                    format!("{}/{:?}/outcome-depends-on-policy-limit", f, c.mode),
+                    "item {} differs when {:?} is replaced by {:?} (limit = the size needed by the largest record, {}): {:?} vs {:?}\n  unlimited: {:?}\n  limited:   {:?}",
+                    i,
+                    c.a.policy,
+                    tp,
+                    max_adopted,
+                    ra.outs.get(i),
+                    rt.outs.get(i),
+                    ra.outs,
+                    rt.outs
+                );
+            }
         }
         for i in 0..ra.pos.len().min(rb.pos.len()) {
             match c.mode {
@@ -128,13 +198,16 @@ impl Prop for ConfigDiff {
     }
 }
 
-pub const RULE: &str = "cases = (format, any input incl. out-of-domain FASTQ, configuration A, configuration B, mode in {next, records(), plain record-set loop}); configuration = capacity (absolute or aimed at record boundaries) x permissive policy (Std, DoubleUntil, Add(k), DoubleUntilLimited with huge limit) x chunk script (all / 1 / 2 / 3 / random) x Interrupted pattern (none / scattered / storm). Oracle: the two flat traces (records, errors with all fields, positions, End point) are identical. Non-trivial = the two runs really exercised different buffer alignments (different capacity, number of source reads or growth steps) and at least one record or error was produced. Distinct = hash(case).";
+pub const RULE: &str = "cases = (format, any input incl. out-of-domain FASTQ, configuration A, configuration B, mode in {next, records(), plain record-set loop}); configuration = capacity (absolute or aimed at record boundaries) x permissive policy (Std, DoubleUntil, Add(k), DoubleUntilLimited with huge limit) x chunk script (all / 1 / 2 / 3 / random) x Interrupted pattern (none / scattered / storm). Oracle: the two flat traces (records, errors with all fields, positions, End point) are identical; additionally configuration A is re-run with the tightest limited policy that still permits every size it adopted (RefuseAbove / DoubleUntilLimited with limit = the first size of the policy's growth chain at which the largest record fits) and must give the same outcome. Non-trivial = the two runs really exercised different buffer alignments (different capacity, number of source reads or growth steps) and at least one record or error was produced. Distinct = hash(case).";
 
 pub fn run(tier: Tier) -> i32 {
     let mut run = Run::new("C03", tier, "exploration");
     let p = ConfigDiff;
     run.replays("config-differential", &p);
     run.generated("config-differential", &p, tier.pick(100_000, 4_000_000));
+    let h = super::huge::HugeDiff;
+    run.replays("huge-records", &h);
+    run.generated("huge-records", &h, tier.pick(4, 40));
     run.finish(
         RULE,
         &["only policies that permit the needed size are generated (the property quantifies over those)", "no reference model: the code is compared with itself under two configurations"],
@@ -142,5 +215,5 @@ pub fn run(tier: Tier) -> i32 {
 }
 
 pub fn replay(run: &mut Run, file: &std::path::Path) -> Option<bool> {
-    run.replay_file("config-differential", &ConfigDiff, file, true)
+    run.replay_file("config-differential", &ConfigDiff, file, true).or_else(|| run.replay_file("huge-records", &super::huge::HugeDiff, file, true))
 }
